@@ -64,12 +64,15 @@ def cases_for(rng, tier):
     for perm in pick:
         ops = [o for k in perm for o in can[k]]
         cases.append({"sb": rng.choice([0, 2, 3]), "ops": ops})
-    n = 900 if tier == "quick" else 20000
+    n = 800 if tier == "quick" else 20000
     for _ in range(n):
         cases.append({"sb": rng.choice([0, 2, 3]),
                       "ops": histgen.gen_mixed(rng, nops=rng.choice([12, 30, 60, 100]), fail_rate=0.08)})
     for _ in range(150 if tier == "quick" else 3000):
         cases.append({"sb": rng.choice([0, 2, 3]), "ops": same_leaf_case(rng)})
+    # the last object of the creating session is of each kind in turn; later sessions grow OTHER objects and that one
+    for _ in range(250 if tier == "quick" else 6000):
+        cases.append({"sb": rng.choice([0, 2, 3]), "ops": histgen.gen_tail_kind(rng)})
     return cases
 
 
@@ -77,4 +80,5 @@ def run(ctx):
     return histcheck.run(ctx, cases_for(ctx.rng, ctx.tier), "C04", tags=None, unit_modules=["c04unit"],
                          rule_extra="C04 cases: orders of {create X, create Y, write X, write Y, attribute on X, attribute on Y, hard link to X, "
                                     "resize X} (700 sampled permutations quick, all 40320 thorough) plus random interleavings over 2-6 live "
-                                    "objects; datasets with the same link name in different groups modified through OpenDataset handles in reopened sessions; every untouched object's data, attributes and links must be unchanged after reopen.")
+                                    "objects (a third of the datasets of the compound / array / enum / opaque / reference / variable-length kinds, groups also through CreateDenseGroup / CreateGroupWithLinks); datasets with the same link name in different groups modified through OpenDataset handles in reopened sessions; "
+                                    "histories whose last created object is of each kind in turn and whose later sessions move another dataset to dense attribute storage and grow that last object; every untouched object's data, attributes and links must be unchanged after reopen.")
